@@ -154,6 +154,35 @@ theorem C12_no_debris_decompress (C : Codec) (name : String) (f : Fmt)
           simp [FS.set, hq]
   exact ⟨main, by rw [main]; exact h0⟩
 
+/-- **C12_no_debris_decompress_target** — `decompress(name, target=tgt)`: for every fault position, archive state
+and caller block (raising or not) the explicitly named copy `tgt` does not exist afterwards (unless opening it
+failed in the first place, then nothing changed at all), and the call itself adds nothing to the temporary
+namespace. -/
+theorem C12_no_debris_decompress_target (C : Codec) (name tgt : String) (f : Fmt)
+    (hf : Fmt.ofString? (fmtOfName name) = some f)
+    (fault : Option DStep) (body : Body) (st : St)
+    (hbody : ∀ p s, (body p s).1.tmp = s.tmp) :
+    (decompressTo C name tgt fault body st).1.tmp = st.tmp ∧
+    (fault ≠ some .mkTmpFile → (decompressTo C name tgt fault body st).1.user tgt = none) ∧
+    (fault = some .mkTmpFile → (decompressTo C name tgt fault body st).1.user = st.user) := by
+  unfold decompressTo
+  simp only [hf]
+  refine ⟨?_, ?_, ?_⟩
+  · split
+    · rfl
+    · split
+      · rfl
+      · split
+        · rfl
+        · simp only [hbody]
+  · intro hne
+    simp only [hne, if_false]
+    split
+    · simp [FS.del]
+    · split <;> simp [FS.del]
+  · intro h
+    simp [h]
+
 /-! ## an exception in the caller's block -/
 
 /-- **C12_body_exception_preserves_target** — when the block inside `compress` raises, `compress_as` is never
@@ -348,6 +377,6 @@ example : ∀ f m b, idCodec.dec f m (idCodec.enc f m b) = some b := fun _ _ _ =
 #guard (decompress idCodec "nothing.gz" none (idleBody false) st0).1.tmp "t0" == none
 
 assert_axioms C12_format_table C12_format_names C12_format_iff C12_passthrough C12_no_debris_compress
-  C12_no_debris_decompress C12_body_exception_preserves_target C12_roundtrip C12_member_names C12_roundtrip_names C12_member_examples under_temp
+  C12_no_debris_decompress C12_no_debris_decompress_target C12_body_exception_preserves_target C12_roundtrip C12_member_names C12_roundtrip_names C12_member_examples under_temp
 
 end Compress
